@@ -29,7 +29,7 @@ RULE = (
     "form and compiled. Violation = C compiler error, or a built kernel disagreeing with the reference. Non-trivial = spec with >= 2 "
     "rules or a wild construct, and every rule pair; distinct by spec hash."
 )
-P_SUP = {"bessel": True, "measures": ["dx", "dx", "ds", "dS", "dP"], "ids": "few", "max_integrals": 4, "depth": 2, "maxdeg": 3, "max_qdeg": 6, "p_scheme": 0.25, "p_vertex": 0.1}
+P_SUP = {"bessel": True, "p_mesh2": 0.25, "measures": ["dx", "dx", "ds", "dS", "dP"], "ids": "few", "max_integrals": 4, "depth": 2, "maxdeg": 3, "max_qdeg": 6, "p_scheme": 0.25, "p_vertex": 0.1}
 ITYPES = ("cell", "exterior_facet", "interior_facet", "vertex")
 
 WILD = ["two-qelements", "two-qelements", "cell_avg", "facet_avg", "bessel", "raw-geometry", "prism-dS", "vertex-dg", "sumfact-nontp", "diag-different-spaces", "negative-id",
